@@ -34,10 +34,16 @@ type c14obs struct {
 }
 
 func (it *item) srcArgs() (src string, args []string) {
+	src = it.files()[it.defName()]
+	defer func() {
+		// an output file named by the caller
+		if it.outName != "" {
+			args = append(args, it.outFlag(), it.outName)
+		}
+	}()
 	switch it.gen {
 	case "genum":
 		c := it.gc
-		src = c.source(it.pkg)
 		args = []string{"-in", it.defName(), "-types", strings.Join(c.typeNames(), ","),
 			"-json=" + strconv.FormatBool(c.opts[0]), "-yaml=" + strconv.FormatBool(c.opts[1]), "-text=" + strconv.FormatBool(c.opts[2]),
 			"-caseInsensitive=" + strconv.FormatBool(c.opts[3]), "-disableTraits=" + strconv.FormatBool(c.opts[4])}
@@ -46,16 +52,47 @@ func (it *item) srcArgs() (src string, args []string) {
 		}
 	case "gerror":
 		c := it.ec
-		src = c.source(it.pkg)
 		args = []string{"-in-file", it.defName(), "-types", strings.Join(c.typeNames(), ",")}
 		if c.skip {
 			args = append(args, "-skipConvertGen")
 		}
 	case "gsort":
-		src = it.sc.source(it.pkg)
 		args = []string{"-in-file", it.defName(), "-types", strings.Join(it.sc.typeNames(), ",")}
 	}
 	return
+}
+
+// files: every hand-written file of the case's package (definition file first among equals).
+func (it *item) files() map[string]string {
+	switch it.gen {
+	case "genum":
+		return it.gc.files(it.pkg, it.defName())
+	case "gerror":
+		return it.ec.files(it.pkg, it.defName())
+	case "gsort":
+		return it.sc.files(it.pkg, it.defName())
+	}
+	return nil
+}
+
+// writeDefs puts the hand-written files of the case into dir.
+func (it *item) writeDefs(dir string) {
+	for name, src := range it.files() {
+		os.WriteFile(filepath.Join(dir, name), []byte(src), 0o644)
+	}
+}
+
+func (it *item) removeDefs(dir string) {
+	for name := range it.files() {
+		os.Remove(filepath.Join(dir, name))
+	}
+}
+
+func (it *item) outFlag() string {
+	if it.gen == "gsort" {
+		return "-out-file"
+	}
+	return "-out"
 }
 
 func (it *item) assertSource() string {
@@ -70,7 +107,16 @@ func (it *item) assertSource() string {
 
 // prevArgs: the arguments of a preceding run whose output is LONGER than the target's (nil if the
 // case has none).
-func (it *item) prevArgs() []string {
+func (it *item) prevArgs() (args []string) {
+	if it.prevKind() == "same" {
+		_, a := it.srcArgs()
+		return a
+	}
+	defer func() {
+		if args != nil && it.outName != "" {
+			args = append(args, it.outFlag(), it.outName)
+		}
+	}()
 	switch it.gen {
 	case "genum":
 		c := it.gc
@@ -105,6 +151,18 @@ func (it *item) prevArgs() []string {
 		return []string{"-in-file", it.defName(), "-types", strings.Join(it.sc.allTypeNames(), ",")}
 	}
 	return nil
+}
+
+func (it *item) prevKind() string {
+	switch it.gen {
+	case "genum":
+		return it.gc.prev
+	case "gerror":
+		return it.ec.prev
+	case "gsort":
+		return it.sc.prev
+	}
+	return ""
 }
 
 // inProcess runs the generator's exported API inside this process (cwd = package directory).
@@ -176,11 +234,11 @@ func (w *world) reuseVsCLI(header string) (res string) {
 		}
 	}()
 	it.pkg = "rp"
-	src, args := it.srcArgs()
+	_, args := it.srcArgs()
 	dirs := [2]string{filepath.Join(base, "cli", "rp"), filepath.Join(base, "in", "rp")}
 	for _, d := range dirs {
 		os.MkdirAll(d, 0o755)
-		os.WriteFile(filepath.Join(d, it.defName()), []byte(src), 0o644)
+		it.writeDefs(d)
 	}
 	cmd := exec.Command(w.bins[it.gen], args...)
 	cmd.Dir = dirs[0]
@@ -243,18 +301,25 @@ func (w *world) observe14(header string, k int) *c14obs {
 			os.RemoveAll(base)
 		}
 	}()
-	src, args := it.srcArgs()
+	_, args := it.srcArgs()
 	genName := it.genName()
 	mk := func(name string) string {
 		d := filepath.Join(base, name, "rp")
 		os.MkdirAll(d, 0o755)
-		os.WriteFile(filepath.Join(d, it.defName()), []byte(src), 0o644)
+		it.writeDefs(d)
 		return d
 	}
+	nCLI := 0
 	cli := func(dir string) error {
 		cmd := exec.Command(w.bins[it.gen], args...)
 		cmd.Dir = dir
 		cmd.Env = append(append([]string{}, w.env...), "PWD="+dir, "GOFILE="+it.defName(), "GOPACKAGE=rp")
+		// the number of OS threads the generator may use varies from run to run (go/packages parses
+		// the files of a package concurrently; the output must not depend on who finishes first)
+		if p := []string{"", "1", "2", "8"}[nCLI%4]; p != "" {
+			cmd.Env = append(cmd.Env, "GOMAXPROCS="+p)
+		}
+		nCLI++
 		if strings.Contains(it.header, " nopwd=t") {
 			// NOT how go generate starts a generator (it always sets PWD): relative -in path
 			cmd.Env = append(append([]string{}, w.env...), "GOFILE="+it.defName(), "GOPACKAGE=rp")
@@ -289,7 +354,8 @@ func (w *world) observe14(header string, k int) *c14obs {
 		return true
 	}
 	// k rounds; each round: a fresh package in a separate process, the same package again with
-	// the previous output present, and once in this process (fresh), and again (output present)
+	// the previous output present and a third time, and once in this process (fresh), and again
+	// (output present)
 	for r := 0; r < k && o.repeat == ""; r++ {
 		d := mk(fmt.Sprintf("f%d", r))
 		if err := cli(d); err != nil {
@@ -305,6 +371,17 @@ func (w *world) observe14(header string, k int) *c14obs {
 		}
 		if !check("previous-output-present", d) {
 			break
+		}
+		// and a third time where the caller names the output file: a generator that recognises its
+		// own previous output by name may alternate
+		if it.outName != "" || w.thorough {
+			if err := cli(d); err != nil {
+				o.repeat = "differs:error-in-third-generation:" + err.Error()
+				break
+			}
+			if !check("third-generation-over-previous-output", d) {
+				break
+			}
 		}
 		d2 := mk(fmt.Sprintf("i%d", r))
 		for j := 0; j < 2; j++ {
@@ -417,14 +494,14 @@ func (w *world) inprocVsCLI(header string) string {
 		}
 	}()
 	it.pkg = "rp"
-	src, args := it.srcArgs()
+	_, args := it.srcArgs()
 	genName := it.genName()
 	var outs [2][]byte
 	var errs [2]error
 	for k, name := range []string{"in", "cli"} {
 		d := filepath.Join(base, name, "rp")
 		os.MkdirAll(d, 0o755)
-		os.WriteFile(filepath.Join(d, it.defName()), []byte(src), 0o644)
+		it.writeDefs(d)
 		w.mu.Lock()
 		w.genRuns++
 		if k == 0 {
@@ -579,10 +656,32 @@ func run14(f *hx.Flags, w *world) {
 		{fields: []gsortField{{"A", "int", []string{"ByA,1"}}, {"R", "rank", []string{"*ByR,1,String()"}}}},
 	}
 	gs = append(gs, &gsortCase{two: true, only1: true, prev: "moretypes", file: "gsort", fields: []gsortField{{"A", "int", []string{"ByA,1", "*ByAP,1"}}, {"B", "string", []string{"ByA,2"}}}})
+	// struct types spread over 2-4 files of the package (-types are looked up in the package scope;
+	// the files are parsed concurrently), two sorters per struct; and an output file named by the
+	// caller, which the second and third generation find in the package
+	{
+		two := []gsortField{{"A", "int", []string{"ByA,1", "*ByAP,2"}}, {"B", "string", []string{"ByA,2", "*ByAP,1"}}}
+		gs = append(gs,
+			&gsortCase{nt: 4, split: 4, fields: two},
+			&gsortCase{nt: 3, split: 3, file: "sort", out: "sorted_gen.go", fields: two},
+			&gsortCase{two: true, out: "sorters_gen.go", fields: two})
+		if g.thorough {
+			gs = append(gs, &gsortCase{two: true, split: 2, fields: []gsortField{{"A", "int", []string{"ByA,1"}}, {"R", "rank", []string{"*ByR,1,String()", "ByA,2"}}}})
+		}
+	}
 	for i := 0; i < r.N(nrand) && g.thorough; i++ {
 		c := g.randomGsort()
 		if g.thorough && i%2 == 0 {
 			c.two, c.only1, c.prev = true, true, "moretypes"
+		}
+		switch i % 5 {
+		case 1:
+			c.two, c.nt, c.split = false, 3+i%2, 2+i%3
+			if c.split > c.nTypes() {
+				c.split = c.nTypes()
+			}
+		case 3:
+			c.out = "sorters_gen.go"
 		}
 		gs = append(gs, c)
 	}
@@ -592,10 +691,7 @@ func run14(f *hx.Flags, w *world) {
 			seen := map[string]bool{}
 			for _, fl := range c.fields {
 				for _, t := range fl.tags {
-					n := strings.Split(t, ",")[0]
-					if ti == 1 {
-						n += "2"
-					}
+					n := strings.Split(t, ",")[0] + sorterSuffix(ti)
 					if !seen[n] {
 						seen[n] = true
 						req = append(req, tn+"/"+n)
@@ -606,6 +702,9 @@ func run14(f *hx.Flags, w *world) {
 		kk := k
 		if c.prev != "" && !g.thorough {
 			kk = 1
+		}
+		if c.split >= 4 || (c.split >= 2 && g.thorough) {
+			kk = k + 1 // more generations where a dependence on the parse order would sit
 		}
 		ls := lines14(c.header(), kk)
 		kOf[ls[0]] = kk
@@ -620,10 +719,24 @@ func run14(f *hx.Flags, w *world) {
 		{skip: true, custom: true, fields: []gerrField{{"B", "int", "c"}, {"A", "int", "c"}}},
 	}
 	ge = append(ge, &gerrorCase{two: true, only1: true, prev: "moretypes", file: "gerror", fields: []gerrField{{"Code", "int", "pc"}, {"Also", "string", "c"}}})
+	// the two error types in different files; output files named by the caller (with generated and
+	// with caller-written Convert/ConvertS)
+	ge = append(ge,
+		&gerrorCase{two: true, split: 2, fields: []gerrField{{"Code", "int", "pc"}, {"Stat", "status", "c"}}},
+		&gerrorCase{two: true, out: "errs_gen.go", fields: []gerrField{{"Code", "int", "pc"}, {"When", "dur", "c"}}})
+	if g.thorough {
+		ge = append(ge, &gerrorCase{skip: true, custom: true, out: "errors_gen.go", file: "error", fields: []gerrField{{"Code", "int", "pc"}}})
+	}
 	for i := 0; i < r.N(nrand) && g.thorough; i++ {
 		c := g.randomGerror()
 		if g.thorough && i%2 == 0 {
 			c.two, c.only1, c.prev = true, true, "moretypes"
+		}
+		switch i % 5 {
+		case 1:
+			c.two, c.split = true, 2
+		case 3:
+			c.out = "errs_gen.go"
 		}
 		ge = append(ge, c)
 	}
@@ -658,9 +771,20 @@ func run14(f *hx.Flags, w *world) {
 	gn = append(gn,
 		&genumCase{n: 9, under: "int", shape: "alias", traits: cols("ustr,uint"), opts: [5]bool{true, true, true, false, false}},
 		&genumCase{n: 3, under: "int", shape: "plain", traits: cols("ustr+p,label"), opts: [5]bool{false, false, true, false, false}, prev: "allon"})
+	// the enum types and the local trait types declared in another file than the constants; an
+	// output file named by the caller
+	gn = append(gn,
+		&genumCase{n: 3, under: "int", shape: "two", split: 2, traits: cols("label+p,dur,level"), opts: [5]bool{true, true, true, false, false}},
+		&genumCase{n: 3, under: "uint8", shape: "plain", out: "enums_gen.go", file: "enum", traits: cols("ustr+p,fmode"), opts: [5]bool{true, true, true, false, false}})
 	for i := 0; i < r.N(nrand); i++ {
 		c := g.randomGenum()
 		if g.thorough {
+			switch i % 7 {
+			case 3:
+				c.split = 2
+			case 5:
+				c.out = "enums_gen.go"
+			}
 			switch i % 3 {
 			case 0:
 				if len(c.traits) > 0 && c.n >= 3 {
@@ -783,7 +907,7 @@ func run14(f *hx.Flags, w *world) {
 	}
 	r.Res.Extra["generator_runs"] = w.genRuns
 	r.Res.Extra["rounds_per_case"] = k
-	r.Res.Extra["runs_per_round"] = "2 separate processes (fresh, previous output present) + 2 in this process (fresh, previous output present)"
+	r.Res.Extra["runs_per_round"] = "2-3 separate processes (fresh, previous output present, a third generation where the caller names the output file; GOMAXPROCS unset/1/2/8 in turn) + 2 in this process (fresh, previous output present)"
 	r.Finish()
 }
 
